@@ -316,6 +316,28 @@ def specErr2 (l : List Pt) : Rat :=
       / ((l.length : Rat) - 2)
   else 0
 
+/-! ### the whole clause, stated on the NaN-free table
+
+"…once rows containing NaN are set aside … the fit does not change when points are reordered or NaN rows are
+interleaved": the table handed to pewlib (`rows`) is a NaN-free table (`clean`) with rows containing NaN inserted at
+any positions — a relation stated by itself, without the mask `update_linreg` computes — in any order. -/
+
+/-- `NanInsert clean rows`: `rows` is `clean` (every row with both cells finite) with any number of rows that have NaN
+in either or both cells inserted at any positions -/
+inductive NanInsert : List Row → List Row → Prop
+  | nil : NanInsert [] []
+  | keep (r : Row) {c l : List Row} : r.x.isSome = true → r.y.isSome = true → NanInsert c l → NanInsert (r :: c) (r :: l)
+  | nan (n : Row) {c l : List Row} : (n.x = none ∨ n.y = none) → NanInsert c l → NanInsert c (n :: l)
+
+/-- the (x, y, w) triples of a NaN-free table as the property states them: for a built-in weighting the
+entry-by-entry weights (`specWeights`) of the concentration (response) column, for a custom weighting the vector
+given — no mask, no `nanmin`, no replacement pass -/
+def specPts (wt : Weighting) (clean : List Row) : List Pt :=
+  let ws : List V := match wt with
+    | .builtin b => specWeights (clean.map (fun r => if b.onY then r.y else r.x)) b.kind
+    | .custom => clean.map (·.cw)
+  mkPts clean ws
+
 /-- the hypothesis of the property on the fitted rows: positive weights and two distinct
 concentrations -/
 def fitHyp (l : List Pt) : Bool :=
